@@ -19,9 +19,9 @@ from lib.core import hyp_run, enumerate_run, HarnessError, PropertyViolation, Kn
 META = dict(
     property="C29",
     level="exploration",
-    technique="generated stream sets, response plans (plain writes, push/pull producers, delayed and application-paced writes) and peer schedules (WINDOW_UPDATE, SETTINGS INITIAL_WINDOW_SIZE up and down, MAX_FRAME_SIZE, split delivery, transport back-pressure) against the real H2Connection; independent RFC 7540 §6.9 window accounting on hyperframe-decoded frames + h2 client as second witness; quiescence checks for liveness",
+    technique="generated stream sets, response plans (plain writes, push/pull producers, delayed and application-paced writes) and peer schedules (WINDOW_UPDATE, SETTINGS INITIAL_WINDOW_SIZE up and down, MAX_FRAME_SIZE, PRIORITY, split delivery, transport back-pressure) against the real H2Connection; independent RFC 7540 §6.9 window accounting on hyperframe-decoded frames + h2 client as second witness; quiescence checks for liveness",
     level_text="Random histories: 1-8 concurrent streams, bodies 0..300 KiB written in 0-6 chunks by five kinds of responders, initial windows 0..100000, 5-40 peer/application operations. Checked at every server write: cumulative DATA per stream and per connection never exceeds what the peer had granted when the bytes were written (initial window at stream creation + WINDOW_UPDATEs + SETTINGS deltas), frame length within the peer's MAX_FRAME_SIZE. Checked whenever the harness lets the system go quiet (no bytes and no application activity for 6 + 2 x streams reactor iterations, transport not paused): every open stream is either finished or has no window left (connection or stream) - i.e. nothing that could be sent is left unsent; and a stream whose application has finished and whose body is entirely on the wire has its END_STREAM even while its window is closed (ending needs no credit). Checked at the end after every stream and the connection received 4 MiB of window: every response ended, body byte-identical to the plan, also as seen by the h2 client. 'Resume' is a quiescence property under a fair harness-owned continuation, not liveness in general. Sampled, no proof.",
-    level_note="Trusted base: h2 4.4.1 / hyperframe / hpack as installed (the server itself is built on h2), the ~90-line round-robin stand-in for the missing `priority` package in /verif/vendor/priority (dependencies and weights are not honoured; the property is about flow control, not weighting), the window accounting in this file. The busy polling of _sendPrioritisedData while a stream with queued data has no window (it re-arms callLater(0) every iteration) is not asserted. No request bodies, RST_STREAM, PRIORITY or GOAWAY are generated.",
+    level_note="Trusted base: h2 4.4.1 / hyperframe / hpack as installed (the server itself is built on h2), the ~90-line round-robin stand-in for the missing `priority` package in /verif/vendor/priority (dependencies and weights are not honoured; the property is about flow control, not weighting), the window accounting in this file. The busy polling of _sendPrioritisedData while a stream with queued data has no window (it re-arms callLater(0) every iteration) is not asserted. PRIORITY frames (idle, open and completed streams) are generated as additional legal peer input; no request bodies, RST_STREAM or GOAWAY.",
     design_ref="§5 C29",
     rule="case = {w0, streams:[{mode, chunks}], ops:[...]} interpreted by run_case; a complete one-stream scope (windows 0-2, 0-2 byte bodies, all sequences of <=2 operations, 3420 cases) runs first, then random histories. non-trivial = at some quiescent point at least 2 streams were simultaneously blocked on flow control with body still to send; distinct by canonical JSON of the case.",
 )
@@ -632,6 +632,26 @@ def _interpret(ctx, case, w):
                 ctx.count("op:application-write")
             else:
                 ctx.count("op:skipped")
+        elif kind == "prio":
+            # PRIORITY frame (RFC 7540 6.3 / 5.3): legal for any stream - idle (no
+            # HEADERS yet, or never), open, or already completed.  It must not
+            # disturb flow control or delivery of any stream.
+            def resolve(t):
+                if t is None:
+                    return 0
+                if t >= 100:
+                    return 2 * (len(w.sid_of) + (t - 100)) + 1
+                return w.sid_of.get(t)
+            sid, dep = resolve(op[1]), resolve(op[2])
+            if sid is None or dep is None:
+                ctx.count("op:skipped")
+                continue
+            if dep == sid:
+                dep = 0
+            w.client.prioritize(sid, weight=op[3], depends_on=dep, exclusive=op[4])
+            w.collect_client()
+            ctx.count("op:priority:" + ("idle-stream" if sid not in w.idx_of else
+                                        "completed-stream" if w.ended.get(sid) else "open-stream"))
         elif kind == "quiesce":
             w.quiesce()
             if not w.paused:
@@ -740,7 +760,7 @@ def cases(draw, maxstreams=6):
     opened = 0
     for _ in range(integer(4, 36)):
         k = pick(["open", "open", "wu", "wu", "wu", "init", "init", "mfs", "flush", "tick", "tick",
-                  "pause", "resume", "app", "app", "quiesce", "quiesce"])
+                  "pause", "resume", "app", "app", "quiesce", "quiesce", "prio", "prio"])
         if k == "open":
             if opened < n:
                 ops.append(["open", opened])
@@ -757,6 +777,9 @@ def cases(draw, maxstreams=6):
             ops.append(["flush", pick([None, 1, 5, 9, 10, 13, 20, 30])])
         elif k == "tick":
             ops.append(["tick", integer(1, 4)])
+        elif k == "prio":
+            targets = list(range(opened)) + [100, 100, 101, 102]
+            ops.append(["prio", pick(targets), pick([None, None] + targets), pick([1, 16, 200, 256]), integer(0, 1) == 1])
         elif k == "app":
             manual = [i for i in range(opened) if streams[i]["mode"] == "manual"]
             ops.append(["app", pick(manual)] if manual else ["tick", 1])
@@ -765,7 +788,8 @@ def cases(draw, maxstreams=6):
     return dict(w0=w0, streams=streams, ops=ops)
 
 
-SMALL_OPS = [["wu", 0, 1], ["wu", 0, 2], ["wu", -1, 1], ["init", 0], ["init", 1], ["init", 3], ["app", 0]]
+SMALL_OPS = [["wu", 0, 1], ["wu", 0, 2], ["wu", -1, 1], ["init", 0], ["init", 1], ["init", 3], ["app", 0],
+             ["prio", 100, None, 16, False]]      # PRIORITY for a stream that never gets HEADERS
 
 
 def small_cases():
@@ -777,6 +801,11 @@ def small_cases():
             for chunks in ([], [1], [2], [1, 1]):
                 for n in (0, 1, 2):
                     for seq in itertools.product(SMALL_OPS, repeat=n):
+                        if n == 2 and seq[0][0] == "prio" and seq[1][0] == "prio":
+                            # instead: PRIORITY for the stream before its HEADERS arrive
+                            ops = [["prio", 100, None, 200, True], ["tick", 1], ["open", 0], ["quiesce"]]
+                            yield dict(w0=w0, streams=[dict(mode=mode, chunks=list(chunks))], ops=ops)
+                            continue
                         ops = [["open", 0], ["quiesce"]]
                         if mode == "manual":
                             ops += [["app", 0], ["quiesce"]]
